@@ -89,6 +89,22 @@ func c03ScaleInClause(rep *explore.Report) {
 // the status counters are an exact census of the live pods.
 func c12CensusClause(rep *explore.Report) {
 	seeds := append(searchSeeds(c02Grids()), c09ExtraSeeds(false)...)
+	{
+		// a pod the set can neither claim nor replace holds the name of a desired ordinal (bare pod with other labels,
+		// pod of another controller): the count must not include what could not be created
+		w := world.New()
+		for _, pol := range []string{"OrderedReady", "Parallel"} {
+			for _, owner := range []string{"none", "otherkind"} {
+				squat := gen.Cell{Present: true, Phase: v1.PodRunning, Ready: true, Rev: 0, Owner: owner, NoMatch: true}
+				for _, cells := range [][]gen.Cell{{gen.ReadyAt(0), squat, gen.Absent}, {squat, gen.Absent, gen.Absent}, {gen.ReadyAt(0), gen.ReadyAt(0), squat}} {
+					for r := int32(2); r <= 3; r++ {
+						sc := gen.Scenario{Spec: gen.Spec{Name: "web", Replicas: r, Policy: pol, Strategy: gen.RU(0), Limit: 10, Template: 1}, Revs: []int{1}, Cur: 0, Cells: cells}
+						seeds = append(seeds, explore.Seed{Label: sc.String(), State: sc.Build(w)})
+					}
+				}
+			}
+		}
+	}
 	D := 0
 	if explore.Tier() == "thorough" {
 		D = 1
@@ -105,7 +121,7 @@ func c12CensusClause(rep *explore.Report) {
 	var fixed int64
 	for id, k := range g.Bottoms {
 		n := g.Nodes[k]
-		if g.BottomSize[id] != 1 || !n.Quiet {
+		if g.BottomSize[id] != 1 || !(n.Quiet || n.Settled) {
 			continue
 		}
 		p := g.PathTo(k)
